@@ -946,7 +946,7 @@ def lingering(s):
         use_np = r.random() < 0.6
         olds = []
         mb = r.choice(["m1", "mling"])
-        for i in range(r.choice([1, 2])):
+        for i in range(r.choice([1, 2, 2, 3])):
             c = Client(s, app, "s1")
             if use_np:
                 mb = _claimed_mb(c.cmd({"type": "claim", "nameplate": name})) or mb
@@ -1019,7 +1019,8 @@ def lingering(s):
                     c.cmd({"type": "close", "mailbox": mb})      # a second close on the same connection: refused
             elif x < 0.7:
                 c.cmd({"type": "add", "phase": "late", "body": "ee"})
-                c.cmd({"type": "close", "mood": "errory"})
+                if r.random() < 0.4:
+                    c.cmd({"type": "close", "mood": "errory"})
             elif x < 0.85:
                 if use_np:
                     c.cmd({"type": "release"})
